@@ -10,7 +10,7 @@ from .xt import veq
 VMODES = ["ramp", "extreme", "minimal"]
 PY_FORMS = ["py"]
 ND = ["nd", "ndF", "ndS", "ndD", "ndR"]
-XOBJ = ["xobj-same", "xobj-other", "xobj-ctx", "xobj-kind", "xobj-nested"]
+XOBJ = ["xobj-same", "xobj-other", "xobj-ctx", "xobj-kind", "xobj-nested", "xobj-slack"]
 CAP = ["cap"]
 
 
@@ -74,6 +74,9 @@ def forms_for(t, v, want):
         elif f == "xobj-nested":
             if t[0] in ("St", "A") and (t[0] == "St" and any(ft[0] in ("St", "A", "Str") for _, ft in t[1]) or t[0] == "A" and t[1][0] in ("St", "A", "Str")) and xt.py_expressible(t, v):
                 out.append(f)
+        elif f == "xobj-slack":
+            if has_str and xt.py_expressible(t, v):
+                out.append(f)
         elif f in XOBJ:
             out.append(f)
         elif f == "cap":
@@ -114,6 +117,35 @@ def nested_xobj_arg(t, v):
     return rec((), 0)
 
 
+def inflate(t, v):
+    """same value with every string 9 bytes longer (always one slot more)"""
+    k = t[0]
+    if k == "Str":
+        return v + "#" * 9
+    if k == "S":
+        return v
+    if k == "St":
+        return {n: inflate(ft, v[n]) for n, ft in t[1]}
+    if k == "A":
+        return {"shape": v["shape"], "items": {i: inflate(t[1], x) for i, x in v["items"].items()}}
+    if k == "R":
+        return None if v is None else inflate(t[1], v)
+    if k == "U":
+        return None if v is None else (v[0], inflate(t[1][v[0]], v[1]))
+
+
+def slack_source(t, v, **kw):
+    """an object holding v whose strings were created longer and then assigned their (fitting) final value:
+    a legitimate object with slack inside"""
+    from . import hand
+
+    src = xt.construct(t, xt.to_py(t, inflate(t, v)), **kw)
+    for path, lt, lv in xt.leaf_paths(t, v):
+        if lt[0] == "Str":
+            hand.assign(t, src, path, lv)
+    return src
+
+
 def execute(t, v, form, pname, salt=0):
     """Run one construction.  Never raises for library failures: they are recorded in .error"""
     o = Outcome()
@@ -145,9 +177,15 @@ def execute(t, v, form, pname, salt=0):
             kw = dict(_buffer=place.traced("np", 0))
         elif form == "xobj-kind":
             kw = dict(_buffer=place.traced("ba", 0))
+        elif form == "xobj-slack":
+            kw = dict(_buffer=place.traced("np", 0))
         else:
             kw = dict(_buffer=place.traced("np", 0, context=place.ctx(1)))
-        o.src = xt.construct(t, base_arg(t, v), **kw)
+        if form == "xobj-slack":
+            o.src = slack_source(t, v, **kw)
+            o.size_model = None  # anything between the minimal layout and the source's extent is legitimate
+        else:
+            o.src = xt.construct(t, base_arg(t, v), **kw)
         arg = o.src
         if pl.buf is not None:
             pl.buf.log.clear()
